@@ -9,9 +9,11 @@ package netceptor
 import (
 	"context"
 	"crypto/rand"
+	"crypto/sha256"
 	"crypto/tls"
 	"crypto/x509"
 	"crypto/x509/pkix"
+	"encoding/hex"
 	"encoding/json"
 	"encoding/pem"
 	"io"
@@ -27,7 +29,10 @@ import (
 type mtlsArgs struct {
 	Require bool     `json:"require"`
 	CAs     bool     `json:"cas"`
-	Present []string `json:"present"` // own other both none otherca expired serverusage
+	Present []string `json:"present"` // own other both none otherca expired serverusage ownpinned
+	// the server profile pins one client certificate: the one presented as "ownpinned" (a certificate for this
+	// node's own ID, like "own", but a different certificate)
+	Pinned bool `json:"pinned"`
 }
 
 func mtlsLeaf(ids []string, ca string, validity string, usage string, serial int64) (der []byte, certPEM, keyPEM []byte) {
@@ -97,7 +102,12 @@ func mtlsApply(raw json.RawMessage) interface{} {
 	if !streamWaitRoute(n1, "node2", 10*time.Second) || !streamWaitRoute(n2, "node1", 10*time.Second) {
 		return map[string]interface{}{"error": "no route after 10 s"}
 	}
+	pinnedDER, pinnedCert, pinnedKey := mtlsLeaf([]string{"node2"}, "trusted", "valid", "both", 599)
 	scfg := TLSServerConfig{Name: "srv", Cert: srvCert, Key: srvKey, RequireClientCert: a.Require}
+	if a.Pinned {
+		sum := sha256.Sum256(pinnedDER)
+		scfg.PinnedClientCert = []string{hex.EncodeToString(sum[:])}
+	}
 	if a.CAs {
 		scfg.ClientCAs = caFile
 	}
@@ -160,6 +170,12 @@ func mtlsApply(raw json.RawMessage) interface{} {
 			mkPair([]string{"node2"}, "trusted", "expired", "both")
 		case "serverusage":
 			mkPair([]string{"node2"}, "trusted", "valid", "server")
+		case "ownpinned":
+			pair, err := tls.X509KeyPair(pinnedCert, pinnedKey)
+			if err != nil {
+				panic(err)
+			}
+			certs = []tls.Certificate{pair}
 		default:
 			panic("verif: presentation " + pres)
 		}
@@ -233,4 +249,90 @@ func vtimeApply(raw json.RawMessage) interface{} {
 	fresh := mk(created.Add(time.Second), now.Add(time.Hour), 701)         // issued after the verifier was created: valid now
 	lapsed := mk(created.Add(-time.Hour), created.Add(time.Second), 702) // still valid when the verifier was created: expired now
 	return map[string]interface{}{"fresh": f([][]byte{fresh}, nil) == nil, "lapsed": f([][]byte{lapsed}, nil) == nil}
+}
+
+// ---- verifychain: what the peer presents is a chain; only its first certificate is the peer
+
+type vchainArgs struct {
+	Chain    [][]string `json:"chain"`    // node IDs (hex) of each presented certificate, leaf first
+	Expected string     `json:"expected"` // hex
+	Role     string     `json:"role"`
+}
+
+func vchainApply(raw json.RawMessage) interface{} {
+	var a vchainArgs
+	if err := json.Unmarshal(raw, &a); err != nil {
+		panic(err)
+	}
+	certSetup()
+	pool := x509.NewCertPool()
+	pool.AddCert(certCA.Certificate)
+	role := VerifyType(VerifyServer)
+	if a.Role == "client" {
+		role = VerifyClient
+	}
+	chain := [][]byte{}
+	for i, ids := range a.Chain {
+		names := []string{}
+		for _, id := range ids {
+			names = append(names, string(verifUnhex(id)))
+		}
+		der, _, _ := mtlsLeaf(names, "trusted", "valid", "both", int64(800+i))
+		chain = append(chain, der)
+	}
+	f := ReceptorVerifyFunc(&tls.Config{RootCAs: pool, ClientCAs: pool}, nil, string(verifUnhex(a.Expected)), ExpectedHostnameTypeReceptor, role, verifQuietLogger())
+	return map[string]interface{}{"accept": f(chain, nil) == nil}
+}
+
+// ---- clientcfgseq: one named TLS client profile used for several connections, to different peers, in different modes
+
+type ccfgCall struct {
+	Expected string `json:"expected"` // hex: node ID or DNS name
+	Mode     string `json:"mode"`     // receptor | dns
+}
+
+type ccfgArgs struct {
+	Calls   []ccfgCall `json:"calls"`
+	Present [][]string `json:"present"` // node IDs (hex) of the certificates each configuration is asked to judge
+}
+
+func ccfgApply(raw json.RawMessage) interface{} {
+	var a ccfgArgs
+	if err := json.Unmarshal(raw, &a); err != nil {
+		panic(err)
+	}
+	certSetup()
+	pool := x509.NewCertPool()
+	pool.AddCert(certCA.Certificate)
+	s, cancel := verifQuietNode("verif-ccfg", 30)
+	defer cancel()
+	if err := s.SetClientTLSConfig("prof", &tls.Config{RootCAs: pool, MinVersion: tls.VersionTLS12}, [][]byte{}); err != nil {
+		return map[string]interface{}{"error": err.Error()}
+	}
+	ders := [][]byte{}
+	for i, ids := range a.Present {
+		names := []string{}
+		for _, id := range ids {
+			names = append(names, string(verifUnhex(id)))
+		}
+		der, _, _ := mtlsLeaf(names, "trusted", "valid", "both", int64(900+i))
+		ders = append(ders, der)
+	}
+	out := []interface{}{}
+	for _, c := range a.Calls {
+		var mode ExpectedHostnameType = ExpectedHostnameTypeReceptor
+		if c.Mode == "dns" {
+			mode = ExpectedHostnameTypeDNS
+		}
+		cfg, err := s.GetClientTLSConfig("prof", string(verifUnhex(c.Expected)), mode)
+		if err != nil {
+			return map[string]interface{}{"error": err.Error()}
+		}
+		acc := []bool{}
+		for _, der := range ders {
+			acc = append(acc, cfg.VerifyPeerCertificate != nil && cfg.VerifyPeerCertificate([][]byte{der}, nil) == nil)
+		}
+		out = append(out, map[string]interface{}{"accepts": acc, "server_name": verifHex([]byte(cfg.ServerName)), "skip_default": cfg.InsecureSkipVerify})
+	}
+	return map[string]interface{}{"calls": out}
 }
